@@ -19,6 +19,7 @@ import (
 
 	"verif/harness/pbfgen"
 	"verif/harness/pbfrun"
+	"verif/harness/pbfwire"
 	"verif/harness/wire"
 )
 
@@ -424,6 +425,22 @@ func damageCase(w *wire.Writer, r *pbfrun.Runner, base *file, dm *dmg, pos int, 
 		}
 		w.Count(fmt.Sprintf("damage:outcome=%d", oc))
 	}
+	// in-block damage: the damaged block's message tree (read back from the payload bytes with the
+	// independent reader), so that Coq can run the layer-L1 model of the block decoder on it
+	if dm.inBlock {
+		payload := pbfgen.Serialize(pbfgen.BlockTree(f.desc.Blocks[pos]))
+		tree, err := pbfgen.Parse(payload, pbfgen.BlockSchema)
+		if err != nil {
+			return nil, err
+		}
+		c.Bool(true)
+		if err := pbfwire.PutTree(c, tree); err != nil {
+			return nil, err
+		}
+		w.Stats["damage:trees"]++
+	} else {
+		c.Bool(false)
+	}
 	c.Desc = map[string]interface{}{"kind": "damage", "class": dm.name, "block": pos, "file_seed": f.seed, "size": len(f.data),
 		"frames": fds, "damaged_frame": di, "observed": obsl, "expected_objects": exp, "file": f.desc}
 	if pos >= 1 && c.OracleFail == "" {
@@ -442,6 +459,7 @@ func damageCase(w *wire.Writer, r *pbfrun.Runner, base *file, dm *dmg, pos int, 
 				pbfrun.EmitToks(d, objs)
 				d.Int(oc)
 			}
+			d.Bool(false)
 			d.Desc = map[string]interface{}{"kind": "canary of a damage case", "class": dm.name}
 			return d
 		}
